@@ -417,5 +417,94 @@ impl AutomergeSeq {
 //@ end
 }
 
+// ================================================================ op_set2/change/batch.rs: the batch-apply admission loop (C38)
+#[verifier::external_body] pub struct PatchLog { _p: () }
+pub struct PatchLogMismatch;
+impl vstd::std_specs::convert::FromSpecImpl<PatchLogMismatch> for AutomergeError {
+    open spec fn obeys_from_spec() -> bool { true }
+    open spec fn from_spec(e: PatchLogMismatch) -> Self { AutomergeError::Other }
+}
+impl From<PatchLogMismatch> for AutomergeError { fn from(e: PatchLogMismatch) -> Self { AutomergeError::Other } }
+/// the change graph as far as the admission loop consults it
+#[verifier::external_body] pub struct ChangeGraphB { _p: () }
+impl ChangeGraphB {
+    pub uninterp spec fn spec_has(&self, h: ChangeHash) -> bool;
+    #[verifier::external_body]
+    pub fn has_change(&self, h: &ChangeHash) -> (r: bool) ensures r == self.spec_has(*h) { unimplemented!() }
+}
+impl ChangeQueue {
+    /// ASSUMED (closures over HashMap/VecDeque): dropping a queued branch keeps the index invariant
+    #[verifier::external_body]
+    pub fn remove_actor_branch_from(&mut self, actor: &ActorId, seq: u64)
+        requires old(self).wf(), ensures final(self).wf() { unimplemented!() }
+    /// ASSUMED (Kahn's algorithm over HashMap/VecDeque): releasing the ready changes keeps the index invariant
+    #[verifier::external_body]
+    pub fn pop_topo_sorted_ready(&mut self, g: &ChangeGraphB) -> (r: Vec<Change>)
+        requires old(self).wf(), ensures final(self).wf() { unimplemented!() }
+}
+#[verifier::external_body] pub struct BatchApply { _p: () }
+impl BatchApply {
+    #[verifier::external_body] pub fn default() -> BatchApply { unimplemented!() }
+    #[verifier::external_body] pub fn push(&mut self, c: Change) { unimplemented!() }
+    /// applies the released changes; the queue is not touched (ASSUMED)
+    #[verifier::external_body]
+    pub fn apply(&mut self, doc: &mut AutomergeBatch, log: &mut PatchLog) -> (r: Result<(), PatchLogMismatch>)
+        ensures final(doc).queue == old(doc).queue { unimplemented!() }
+}
+/// the items an `IntoIterator<Item = Change>` yields (abstract)
+pub uninterp spec fn change_items<I>(it: I) -> Seq<Change>;
+/// a change the document neither applied nor queued (what the `filter` closure of the real code keeps)
+pub open spec fn is_new(c: Change, g: ChangeGraphB, q: ChangeQueue) -> bool {
+    !g.spec_has(c.spec_hash()) && !q.hashes@.contains(c.spec_hash())
+}
+/// trusted wrapper for
+///   `changes.into_iter().filter(|c| { let hash = c.hash(); !(self.change_graph.has_change(&hash) || self.queue.has_hash(&hash)) })`
+/// (iterator adapter: outside this Verus).  The substitution matches that EXACT text; it yields, in order, the new changes.
+#[verifier::external_body]
+pub fn vf_filter_new<I: IntoIterator<Item = Change>>(changes: I, g: &ChangeGraphB, q: &ChangeQueue) -> (r: Vec<Change>)
+    ensures
+        forall|k: int| 0 <= k < r.len() ==> is_new(#[trigger] r[k], *g, *q),
+        forall|j: int| 0 <= j < change_items(changes).len() && is_new(#[trigger] change_items(changes)[j], *g, *q)
+            ==> exists|k: int| 0 <= k < r.len() && r[k] == change_items(changes)[j],
+{ unimplemented!() }
+
+pub struct AutomergeBatch { pub change_graph: ChangeGraphB, pub queue: ChangeQueue, pub seqs: AutomergeSeq }
+impl AutomergeBatch {
+    /// contract of Automerge::has_actor_seq, proved above on the real body
+    #[verifier::external_body]
+    pub fn has_actor_seq(&self, change: &Change) -> (r: bool)
+        ensures r == (change.spec_seq() <= self.seqs.spec_applied_seq(change.spec_actor())) { unimplemented!() }
+
+//@ fn rust/automerge/src/op_set2/change/batch.rs | impl Automerge | apply_changes_batch_log_patches
+//@   ret r
+//@   subst /changes\.into_iter\(\)\.filter\(\|c\| \{\s*let hash = c\.hash\(\);\s*!\(self\.change_graph\.has_change\(&hash\) \|\| self\.queue\.has_hash\(&hash\)\)\s*\}\)/ => vf_filter_new(changes, &self.change_graph, &self.queue)
+//@   spec
+        requires old(self).queue.wf(),
+        ensures
+            // C38: a batch is admitted only if none of its NEW changes claims an (actor, seq) the document has applied ...
+            r is Ok ==> forall|j: int| 0 <= j < change_items(changes).len() && is_new(#[trigger] change_items(changes)[j], old(self).change_graph, old(self).queue)
+                ==> !(change_items(changes)[j].spec_seq() <= old(self).seqs.spec_applied_seq(change_items(changes)[j].spec_actor())),
+            // ... or that a queued change already claims (this is also what `ChangeQueue::extend` requires: obligation at its call)
+            r is Ok ==> forall|j: int| 0 <= j < change_items(changes).len() && is_new(#[trigger] change_items(changes)[j], old(self).change_graph, old(self).queue)
+                ==> !old(self).queue.incoming_actor_seqs@.contains((change_items(changes)[j].spec_actor(), change_items(changes)[j].spec_seq())),
+            final(self).queue.wf(),
+//@   loop 1 iter it
+            invariant
+                self.queue == old(self).queue, self.change_graph == old(self).change_graph, self.seqs == old(self).seqs,
+                self.queue.wf(), batch.wf(),
+                forall|k: int| 0 <= k < it.seq().len() ==> is_new(#[trigger] it.seq()[k], old(self).change_graph, old(self).queue),
+                forall|k: int| 0 <= k < it.index@ ==> !((#[trigger] it.seq()[k]).spec_seq() <= old(self).seqs.spec_applied_seq(it.seq()[k].spec_actor()))
+                    && !old(self).queue.incoming_actor_seqs@.contains((it.seq()[k].spec_actor(), it.seq()[k].spec_seq())),
+                forall|i: int| 0 <= i < batch.changes.len() ==> !old(self).queue.hashes@.contains((#[trigger] batch.changes[i]).spec_hash())
+                    && !old(self).queue.incoming_actor_seqs@.contains((batch.changes[i].spec_actor(), batch.changes[i].spec_seq())),
+//@   before /batch\.push\(c\)\?;/
+            let ghost pre_batch = batch.changes@;
+//@   after /batch\.push\(c\)\?;/
+            proof {
+                assert(batch.changes@ == pre_batch || batch.changes@ == pre_batch.push(c));
+            }
+//@ end
+}
+
 } // verus!
 fn main() {}
